@@ -182,6 +182,21 @@ async def barrier_top(mpc, ctx):
     await mpc.shutdown()
 
 
+@program('barrier_single', ms=(1,), expect=None, tags=('barrier',))
+async def barrier_single(mpc, ctx):
+    """One party started with an explicit -M1 runs asynchronously as well: its barrier has coroutines to wait for."""
+    await mpc.start()
+    secint = mpc.SecInt(8)
+    a = mpc.input(secint(3), senders=0)
+    z = mpc.prod([a * a, a + 1, a])
+    w = mpc.output(z * a + (a < 5))
+    before = ctx.tasks_before()
+    await mpc.barrier('one')
+    ctx.report_barrier('one', before)
+    ctx.out('w', await w)
+    await mpc.shutdown()
+
+
 @program('no_barrier_shutdown', ms=(2, 3), expect=lambda m: [('c', 64)], tags=('barrier',))
 async def no_barrier_shutdown(mpc, ctx):
     """Option --no-barrier: barrier() is a no-op, but shutdown() must still wait for the coroutines that are under way."""
